@@ -1,8 +1,9 @@
 (** C18 — parser functions compute their documented values
     (models: Model/ParserFns.v; proofs: Proofs/ParserFnsProofs.v;
-     Gen/GenLadder.v is regenerated from parserfns.py:expr_fn on every run). *)
+     Gen/GenLadder.v is regenerated from parserfns.py:expr_fn on every run,
+     Gen/GenLocales.v from the shipped locale data). *)
 From Coq Require Import List String NArith ZArith Bool Arith.
-From WTP Require Import Base.Str Model.ParserFns Proofs.ParserFnsProofs Gen.GenLadder.
+From WTP Require Import Base.Str Model.ParserFns Proofs.ParserFnsProofs Proofs.FormatnumProofs Gen.GenLadder Gen.GenLocales.
 Import ListNotations.
 Local Open Scope list_scope.
 
@@ -77,3 +78,32 @@ Theorem c18_plural_selects_by_one :
   forall r one many, plural_fn r one many = if str_eqb r [49%N] then one else many.
 Proof. exact plural_selects. Qed.
 Print Assumptions c18_plural_selects_by_one.
+
+
+(* formatnum / formatnum|R round trip, for every numeral (any number of integer
+   digits, optional fraction of any length) and every locale whose decimal
+   point is one non-digit character and whose separator is empty or one other
+   non-digit character (loc_ok) ... *)
+Theorem c18_formatnum_roundtrip :
+  forall loc ip fp, loc_ok loc = true -> digits ip -> fp_digits fp -> numeral ip fp <> [] ->
+    formatnum_reverse loc (formatnum loc (numeral ip fp)) = numeral ip fp.
+Proof. exact formatnum_roundtrip. Qed.
+Print Assumptions c18_formatnum_roundtrip.
+
+(* ... and every locale shipped in the current source tree is such a locale *)
+Theorem c18_all_shipped_locales_ok : forallb loc_ok locales = true.
+Proof. vm_compute. reflexivity. Qed.
+Print Assumptions c18_all_shipped_locales_ok.
+
+Theorem c18_formatnum_roundtrip_shipped :
+  forall loc ip fp, In loc locales -> digits ip -> fp_digits fp -> numeral ip fp <> [] ->
+    formatnum_reverse loc (formatnum loc (numeral ip fp)) = numeral ip fp.
+Proof. intros loc ip fp Hin. apply formatnum_roundtrip.
+  exact (proj1 (forallb_forall loc_ok locales) c18_all_shipped_locales_ok loc Hin). Qed.
+Print Assumptions c18_formatnum_roundtrip_shipped.
+
+(* non-vacuity: 1234567.89 in a comma/point locale and in a point/comma locale *)
+Example c18_formatnum_example :
+  formatnum (mkloc [46] [44] [3%nat; 0%nat]) [49;50;51;52;53;54;55;46;56;57]%N = [49;44;50;51;52;44;53;54;55;46;56;57]%N /\
+  formatnum (mkloc [44] [46] [3%nat; 0%nat]) [49;50;51;52;53;54;55;46;56;57]%N = [49;46;50;51;52;46;53;54;55;44;56;57]%N.
+Proof. vm_compute. split; reflexivity. Qed.
